@@ -9,6 +9,7 @@
 #include "iora/core/logger.hpp"
 #include "iora/parsers/json.hpp"
 #include <condition_variable>
+#include <cstdio>
 #include <fstream>
 #include <mutex>
 #include <set>
@@ -225,20 +226,38 @@ public:
 private:
   void saveToFile() const
   {
+    // Write the new contents to a temporary file and rename it over the store
+    // file: a crash at any point leaves either the previous or the new contents,
+    // never a truncated or half-written file (which the constructor would turn
+    // into an empty store).
+    const std::string tmpName = _filename + ".tmp";
     try
     {
-      std::ofstream file(_filename);
-      if (file)
+      const std::string jsonData = _store.dump(2);
+      bool written = false;
       {
-        std::string jsonData = _store.dump(2);
-        file << jsonData;
-        iora::core::Logger::debug("JsonFileStore: Wrote " + std::to_string(jsonData.length()) +
-                                  " bytes to " + _filename);
+        std::ofstream file(tmpName, std::ios::trunc);
+        if (file)
+        {
+          file << jsonData;
+          file.close();
+          written = !file.fail();
+        }
       }
-      else
+      if (!written)
       {
-        iora::core::Logger::error("JsonFileStore: Failed to open " + _filename + " for writing");
+        iora::core::Logger::error("JsonFileStore: Failed to write " + tmpName);
+        std::remove(tmpName.c_str());
+        return;
       }
+      if (std::rename(tmpName.c_str(), _filename.c_str()) != 0)
+      {
+        iora::core::Logger::error("JsonFileStore: Failed to replace " + _filename + " with " + tmpName);
+        std::remove(tmpName.c_str());
+        return;
+      }
+      iora::core::Logger::debug("JsonFileStore: Wrote " + std::to_string(jsonData.length()) +
+                                " bytes to " + _filename);
     }
     catch (const std::exception &e)
     {
